@@ -27,14 +27,18 @@ def psd_clause(cl, rng, n, replay):
         nfft = int(rng.choice([N if N % 2 == 0 else N + 1, 256 if N <= 256 else 512, 1024]))
         scale = float(10.0 ** rng.integers(-4, 4))
         xs = [scale * (rng.normal(0, 1, N) + rng.uniform(-1, 1)) for _ in range(W)]
+        short_last = W >= 2 and j % 3 == 1          # what split() hands on when the record ends with the last window: one sample fewer
+        if short_last:
+            xs[-1] = xs[-1][:-1]
         s = _psd_settings(width, nfft)
         ts = [hvsrpy.TimeSeries(x, dt) for x in xs]
         got = _rpds_single_component(ts, s)
         want = rp.psd_single(xs, dt, nfft, width)
         cl.case((N, dt, W, width, nfft, scale))
         if got.shape != (nfft // 2 + 1,) or not close(got, want, 1e-9, 0):
-            cl.fail("hvsrpy.processing._rpds_single_component", "PSD differs from 2 sum|X_w|^2 / (mean(taper^2) N fs W)", signature="psd:normalisation",
-                    N=N, dt=dt, windows=W, width=width, n=nfft)
+            cl.fail("hvsrpy.processing._rpds_single_component", "PSD differs from the average over the windows of 2 |X_w|^2 / (mean(taper_w^2) N_w fs)"
+                    + (" (final window one sample short)" if short_last else ""), signature="psd:normalisation" + (":short-last-window" if short_last else ""),
+                    N=N, dt=dt, windows=W, width=width, n=nfft, short_last=short_last)
             return
         if any(not np.array_equal(t.amplitude, x) for t, x in zip(ts, xs)):
             cl.fail("hvsrpy.processing._rpds_single_component", "input series modified", signature="psd:frame")
@@ -44,10 +48,12 @@ def psd_clause(cl, rng, n, replay):
         k = 3.0
         scaled = _rpds_single_component([hvsrpy.TimeSeries(k * x, dt) for x in xs], _psd_settings(width, nfft))
         if not (close(got, np.mean(singles, axis=0), 1e-9, 0) and close(scaled, k * k * got, 1e-9, 0)):
-            cl.fail("hvsrpy.processing._rpds_single_component", "Welch averaging / amplitude-squared scaling violated", signature="psd:welch")
+            cl.fail("hvsrpy.processing._rpds_single_component", "Welch averaging / amplitude-squared scaling violated"
+                    + (" (final window one sample short)" if short_last else ""), signature="psd:welch" + (":short-last-window" if short_last else ""))
             return
         # Parseval (single window): sum over bins strictly between 0 and Nyquist times df accounts for the tapered mean square not in those two bins
         x = xs[0]
+        N = len(x)
         w = tukey(N, alpha=width)
         X = np.fft.rfft(x * w, nfft)
         df = 1 / (nfft * dt)
@@ -165,7 +171,7 @@ def preprocess_clause(cl, rng, n, replay):
 
 CLAUSES = [
     ("bounded:PSD == Welch-normalised periodogram; Parseval; k**2 scaling; average of single-window densities", "bounded",
-     "1-4 windows of 64-300 samples, 4 time steps, 4 taper widths, 3 even FFT lengths, amplitude scales 1e-4..1e3", "hvsrpy.processing._rpds_single_component", (80, 2000), psd_clause),
+     "1-4 windows of 64-300 samples (in a third of the multi-window cases the final window is one sample short, as split() produces), 4 time steps, 4 taper widths, 3 even FFT lengths, amplitude scales 1e-4..1e3", "hvsrpy.processing._rpds_single_component", (80, 2000), psd_clause),
     ("bounded:rpsd components / frequency axis (smoothing on/off); diffuse field == sqrt(S(Pns+Pew)/S(Pvt)) of the retained windows", "bounded",
      "1-3 windows, minority time step first / last / absent", "hvsrpy.processing.diffuse_field_hvsr_processing", (30, 600), rpsd_diffuse_clause),
     ("bounded:psd_preprocess == documented steps; spectral derivative; flat response = division by sensitivity with the mean removed", "bounded",
